@@ -16,7 +16,8 @@ LEVEL_NOTE = ("Lean theorems: lin_statistics + stat_linear (after any history ev
               "rationals vs floats at 1e-7) and by the twin against ridge regression on the raw history.")
 
 PROFILE = {"name": "C02", "lp": G.LIN_KINDS, "np": [None], "dims": [1, 1, 2, 3],
-           "weights": {"fit": 1, "pfit": 3, "query": 4, "add": 1.5, "rem": 0.7, "warm": 0.5}, "query_sizes": [1, 2, 3, 5]}
+           "weights": {"fit": 1, "pfit": 3, "query": 4, "add": 1.5, "rem": 0.7, "warm": 0.5}, "query_sizes": [1, 2, 3, 5],
+           "allow_scale": True}
 
 
 def attribute(v, known):
